@@ -665,17 +665,18 @@ func setFromParamVal(buf []byte, pf *PFromBody) ErrorHdr {
 
 func pUInt64Val(b []byte) (n uint64, err ErrorHdr) {
 
-	if len(b) > 20 {
-		err = ErrHdrValTooLong
-		return
-	}
-
 	for _, c := range b {
 		if c < '0' || c > '9' {
 			err = ErrHdrValNotNumber
 			return
 		}
-		n = n*10 + uint64(c-'0')
+		d := uint64(c - '0')
+		if n > (^uint64(0)-d)/10 {
+			// does not fit: saturate (instead of wrapping around)
+			n = ^uint64(0)
+			continue
+		}
+		n = n*10 + d
 	}
 
 	return
